@@ -203,21 +203,25 @@ example :
 
 theorem WSys.step_t (s : WSys) (a : WAct) : (s.step a).t = s.t := by
   cases a with
+  | creator => simp only [WSys.step]; split <;> rfl
   | thread b => rfl
   | stop => rfl
   | ctl =>
     simp only [WSys.step]
     split
     · rfl
-    · split <;> rfl
+    · split
+      · rfl
+      · split <;> rfl
 
 theorem WSys.run_t (s : WSys) (acts : List WAct) : (s.run acts).t = s.t := by
   induction acts generalizing s with
   | nil => rfl
   | cons a r ih => simp only [WSys.run, List.foldl_cons] at ih ⊢; rw [ih, WSys.step_t]
 
-/-- **A timed join is bounded in every schedule.**  The worker is created, anything may happen (`pre`: the new
-thread may or may not have started, stop may or may not have been signalled), then some thread calls
+/-- **A timed join is bounded in every schedule.**  `async_worker_create` runs step by step as the source orders it
+(`createProg`, regenerated), anything may happen (`pre`: steps of the creator, of the new thread — which may even
+finish before the creator's next step —, stop signals), then some thread calls
 `async_worker_join(w, t)` with `t ≥ 0` while the worker thread, the procedure it runs (which returns whenever the
 scheduler says, possibly never) and stop signals interleave arbitrarily (`acts`).  Then the joining thread
 executes at most `⌈t/10⌉ + 2` steps (so at most `⌈t/10⌉` sleeps of 10 ms: it returns within `t` + one poll
@@ -233,8 +237,8 @@ theorem timed_join_bounded (t : Nat) (pre acts : List WAct) :
   have ht : s.t = t := by
     show ((WSys.start t pre).run acts).t = t
     rw [WSys.run_t]
-    show (({ w := Wk.create, t, pc := .done false } : WSys).run pre).t = t
-    rw [WSys.run_t]
+    show ((WSys.fresh createProg t).run pre).t = t
+    rw [WSys.run_t]; rfl
   obtain ⟨_, h2⟩ := hinv
   rw [ht] at h2
   cases hpc : s.pc with
@@ -257,11 +261,95 @@ theorem timed_join_progress (t : Nat) (pre acts : List WAct) (b : Bool) :
     s.pc = .pjoin → ((s.step (.thread b)).step .ctl).pc = .done true := by
   intro s hpc
   have h : s.w.th = .stored ∨ s.w.th = .exited := (timed_join_bounded t pre acts).2.2 hpc
-  rcases h with h | h <;> simp [WSys.step, hpc, Wk.joinStep, Wk.threadStep, h]
+  have hinv : s.Inv := WSys.inv_run _ acts (WSys.inv_start t pre)
+  have hcr : s.creator = [] := by
+    rcases hinv.1 with ⟨_, hth⟩ | ⟨_, hth, _⟩ | ⟨hc, _, _⟩
+    · rcases h with h | h <;> (have := hth.symm.trans h; cases this)
+    · rcases h with h | h <;> (have := hth.symm.trans h; cases this)
+    · exact hc
+  rcases h with h | h <;> simp [WSys.step, hpc, hcr, Wk.joinStep, Wk.threadStep, h]
+
+/-- **Once the thread wrapper has stored STOPPED, no later action stores RUNNING**: in every interleaving of the
+creator's steps (in the order the source has them), the new thread's steps and stop signals, whenever the worker
+thread is past its STOPPED store the state field reads STOPPED.  (With the RUNNING store of `async_worker_create`
+behind the `pthread_create` call this is false: `NV.C19.LateStore.state_stuck_running`.) -/
+theorem state_eventually_stopped_after_proc_returns (t : Nat) (pre acts : List WAct) :
+    let s := (WSys.start t pre).run acts
+    (s.w.th = .stored ∨ s.w.th = .exited) → s.w.state = .stopped := by
+  intro s h
+  have hinv : s.Inv := WSys.inv_run _ acts (WSys.inv_start t pre)
+  rcases hinv.1 with ⟨_, hth⟩ | ⟨_, hth, _⟩ | ⟨_, _, hok⟩
+  · rcases h with h | h <;> (have := hth.symm.trans h; cases this)
+  · rcases h with h | h <;> (have := hth.symm.trans h; cases this)
+  · exact hok.mpr h
+
+/-- **A timed join issued after the worker procedure has returned (e.g. after a stop signal was honoured) returns
+true**: if the thread is past its STOPPED store when the join begins, then in every continuation the join is never
+at `done false` — it sees STOPPED at its first test, enters `pthread_join` and comes back true as soon as the thread
+has exited. -/
+theorem timed_join_returns_true_after_stop (t : Nat) (pre acts : List WAct) :
+    ((WSys.start t pre).w.th = .stored ∨ (WSys.start t pre).w.th = .exited) →
+    ((WSys.start t pre).run acts).pc ≠ .done false := by
+  intro h0
+  -- invariant: thread past the store, creator finished, state STOPPED, join not failed
+  suffices H : ∀ (acts : List WAct) (s : WSys), s.creator = [] → (s.w.th = .stored ∨ s.w.th = .exited) →
+      s.w.state = .stopped → s.pc ≠ .done false → (s.run acts).pc ≠ .done false by
+    have hinv := WSys.inv_start t pre
+    have hcr : (WSys.start t pre).creator = [] := by
+      rcases hinv.1 with ⟨_, hth⟩ | ⟨_, hth, _⟩ | ⟨hc, _, _⟩
+      · rcases h0 with h | h <;> (have := hth.symm.trans h; cases this)
+      · rcases h0 with h | h <;> (have := hth.symm.trans h; cases this)
+      · exact hc
+    have hst : (WSys.start t pre).w.state = .stopped := by
+      rcases hinv.1 with ⟨_, hth⟩ | ⟨_, hth, _⟩ | ⟨_, _, hok⟩
+      · rcases h0 with h | h <;> (have := hth.symm.trans h; cases this)
+      · rcases h0 with h | h <;> (have := hth.symm.trans h; cases this)
+      · exact hok.mpr h0
+    exact H acts _ hcr h0 hst (by simp [WSys.start, WSys.startWith])
+  intro acts
+  induction acts with
+  | nil => intro s _ _ _ hp; exact hp
+  | cons a r ih =>
+    intro s hcr hth hst hp
+    simp only [WSys.run, List.foldl_cons]
+    obtain ⟨w, creator, t', pc, work⟩ := s
+    simp only at hcr hth hst hp
+    subst hcr
+    cases a with
+    | creator => exact ih _ rfl hth hst hp
+    | stop => exact ih _ rfl hth hst hp
+    | thread b =>
+      apply ih _ rfl
+      · rcases hth with h | h <;> simp [WSys.step, Wk.threadStep, h]
+      · rcases hth with h | h <;> simp [WSys.step, Wk.threadStep, h, hst]
+      · exact hp
+    | ctl =>
+      cases pc with
+      | done r => exact ih _ rfl hth hst hp
+      | loop e =>
+        have : (WSys.step ⟨w, [], t', .loop e, work⟩ .ctl) = ⟨w, [], t', .pjoin, work + 1⟩ := by
+          simp [WSys.step, Wk.joinStep, hst]
+        rw [this]
+        exact ih _ rfl hth hst (by simp)
+      | pjoin =>
+        by_cases hex : w.th = .exited
+        · have : (WSys.step ⟨w, [], t', .pjoin, work⟩ .ctl) = ⟨w, [], t', .done true, work + 1⟩ := by
+            simp [WSys.step, Wk.joinStep, hex]
+          rw [this]
+          exact ih _ rfl hth hst (by simp)
+        · have : (WSys.step ⟨w, [], t', .pjoin, work⟩ .ctl) = ⟨w, [], t', .pjoin, work⟩ := by
+            simp [WSys.step, Wk.joinStep, hex]
+          rw [this]
+          exact ih _ rfl hth hst (by simp)
+
+/-- non-vacuity: a short-lived worker whose thread finishes INSIDE the creator's `pthread_create` call; the join then
+    finds STOPPED at once and returns true -/
+example : ((WSys.start 50 [.creator, .creator, .thread true, .thread true, .thread true, .thread true]).run
+    [.ctl, .ctl]).pc = .done true := by decide
 
 /-- non-vacuity: join(25) issued before the new thread has run at all, no stop signalled: three sleeps, false -/
-example : ((WSys.start 25 []).run [.ctl, .thread false, .ctl, .ctl, .ctl]).pc = .done false := by decide
-example : ((WSys.start 25 []).run [.ctl, .thread false, .ctl, .ctl, .ctl]).work = 4 ∧ sleepsFor 25 = 3 := by decide
+example : ((WSys.start 25 [.creator, .creator]).run [.ctl, .thread false, .ctl, .ctl, .ctl]).pc = .done false := by decide
+example : ((WSys.start 25 [.creator, .creator]).run [.ctl, .thread false, .ctl, .ctl, .ctl]).work = 4 ∧ sleepsFor 25 = 3 := by decide
 
 /-! ## timer -/
 
